@@ -21,6 +21,73 @@ NAMINGS = {
 UNIVERSAL = {"po": [], "pk": [], "ndef": 0, "va": True, "ko": [], "kw": True, "vaname": "va", "kwname": "kw"}
 
 
+# ------------------------------------------------------------------------------ values
+# WHICH VALUE is written at a source is a dimension of its own (round 4): the family of the earlier rounds wrote a
+# distinct truthy constant at every source (default 'D_<param>', positional value i, keyword value 'kw_<name>').
+# A valuation maps sources ("d:<param>", "p<i>", "k:<name>") to value tags "<type>:<repr>"; a source it does not
+# list keeps its own tag.  Tags are self-describing: vsrc renders one as source text, vtag reads one off an object;
+# the acceptor (PyBind!Values) says which tag every parameter must carry.
+FALSY = ["NoneType:None", "int:0", "bool:False", "float:0.0", "str:''", "tuple:()", "list:[]", "dict:{}", "bytes:b''",
+         "set:set()", "frozenset:frozenset()", "range:range(0, 0)"]
+ODD = ["bool:True", "int:-1", "str:'0'", "tuple:(0,)", "list:[0]", "float:0.5", "str:'None'", "int:100"]
+NVAL = 20         # distinct valuations per naming and run
+
+
+def vtag(v):
+    t = type(v)
+    if t is int and 1 <= v <= 8:
+        return "p%d" % v
+    if t is str and v.startswith("kw_"):
+        return "k:" + v[3:]
+    if t is str and v.startswith("D_"):
+        return "d:" + v[2:]
+    return "%s:%r" % (t.__name__, v)
+
+
+def vsrc(tag):
+    if tag[0] == "p" and tag[1:].isdigit():
+        return tag[1:]
+    if tag.startswith("k:"):
+        return "'kw_%s'" % tag[2:]
+    if tag.startswith("d:"):
+        return "'D_%s'" % tag[2:]
+    return tag.split(":", 1)[1]
+
+
+def valuation(naming, key, seed):
+    """Valuation number key % NVAL of a run: kind 0 the identity (the constants of the earlier rounds), 1 every default
+    falsy, 2 every argument falsy, 3 both, 4 a random mixture of distinct truthy constants, falsy values of every
+    built-in type and truthy values of other types than str / small int."""
+    import random
+    key = key % NVAL
+    nm = NAMINGS[naming]
+    dsrc = ["d:" + p for p in nm["po"] + nm["pk"] + nm["ko"]]
+    asrc = ["p%d" % i for i in range(1, 5)] + ["k:" + n for n in names_of(naming)]
+    kind = (key + seed) % 5
+    r = random.Random(seed * 1000003 + key)
+    pool = FALSY[:]
+    r.shuffle(pool)
+    val = {}
+    if kind in (1, 3):
+        for j, s_ in enumerate(dsrc):
+            val[s_] = pool[j % len(pool)]
+    if kind in (2, 3):
+        for j, s_ in enumerate(asrc):
+            val[s_] = pool[(j + len(dsrc)) % len(pool)]
+    if kind == 4:
+        for j, s_ in enumerate(dsrc + asrc):
+            c = r.random()
+            if c < 0.4:
+                val[s_] = pool[j % len(pool)]
+            elif c < 0.6:
+                val[s_] = r.choice(ODD)
+    return val
+
+
+def val_pairs(val):
+    return [[k, val[k]] for k in sorted(val)]
+
+
 def names_of(naming="A"):
     nm = NAMINGS[naming]
     return nm["po"] + nm["pk"] + nm["ko"] + ["zz", "trigger_type"]
@@ -120,13 +187,17 @@ def all_shapes(naming="A"):
 
 
 # ------------------------------------------------------------------------------ rendering
-def sig_source(sig):
+def sig_source(sig, val=None):
+    val = val or {}
+
+    def dflt(p):
+        return "=" + vsrc(val.get("d:" + p, "d:" + p))
     P = sig["po"] + sig["pk"]
     n = len(P)
     va, kw = sig.get("vaname", "va"), sig.get("kwname", "kw")
     parts = []
     for i, p in enumerate(P):
-        parts.append(p + ("='D_%s'" % p if i >= n - sig["ndef"] else ""))
+        parts.append(p + (dflt(p) if i >= n - sig["ndef"] else ""))
         if sig["po"] and i == len(sig["po"]) - 1:
             parts.append("/")
     if sig["va"]:
@@ -134,7 +205,7 @@ def sig_source(sig):
     elif sig["ko"]:
         parts.append("*")
     for k in sig["ko"]:
-        parts.append(k["name"] + ("='D_%s'" % k["name"] if k["hasdef"] else ""))
+        parts.append(k["name"] + (dflt(k["name"]) if k["hasdef"] else ""))
     if sig["kw"]:
         parts.append("**" + kw)
     names = P + [k["name"] for k in sig["ko"]]
@@ -142,46 +213,44 @@ def sig_source(sig):
     return "def f(%s):\n    return {%s}\n" % (", ".join(parts), ", ".join(items))
 
 
-def shape_source(shape):
+def shape_source(shape, val=None):
+    val = val or {}
+
+    def pv(i):
+        return vsrc(val.get("p%d" % i, "p%d" % i))
+
+    def kv(k):
+        return vsrc(val.get("k:" + k, "k:" + k))
     args = []
     v = 0
     for it in shape["pos"]:
         if it["star"]:
             vals = list(range(v + 1, v + it["n"] + 1))
             v += it["n"]
-            args.append("*(%s)" % "".join("%d, " % x for x in vals))
+            args.append("*(%s)" % "".join("%s, " % pv(x) for x in vals))
         else:
             v += 1
-            args.append(str(v))
+            args.append(pv(v))
     for it in shape["kws"]:
         if it["star"]:
-            args.append("**{%s}" % ", ".join("'%s': 'kw_%s'" % (k, k) for k in it["names"]))
+            args.append("**{%s}" % ", ".join("'%s': %s" % (k, kv(k)) for k in it["names"]))
         else:
-            args.append("%s='kw_%s'" % (it["names"][0], it["names"][0]))
+            args.append("%s=%s" % (it["names"][0], kv(it["names"][0])))
     return "f(%s)" % ", ".join(args)
 
 
 def observe(sig, res):
-    """Project the dict returned by f to the outcome record of PyBindTrace."""
+    """Project the dict returned by f to the outcome record of PyBindTrace: the VALUE (as a value tag) every
+    parameter received, the values in *va, the names and the values in **kw."""
     names = sig["po"] + sig["pk"] + [k["name"] for k in sig["ko"]]
-    b = []
-    for x in names:
-        v = res[x]
-        if isinstance(v, int):
-            b.append("p%d" % v)
-        elif v == "kw_" + x:
-            b.append("k:" + x)
-        elif v == "D_" + x:
-            b.append("d:" + x)
-        else:
-            b.append("?:%r" % (v,))
     kw = res.get("**", {})
-    return {"k": "ok", "b": b, "va": list(res.get("*", ())),
-            "kw": sorted(k if kw[k] == "kw_" + k else "?:" + k for k in kw)}
+    ks = sorted(kw)
+    return {"k": "ok", "b": [vtag(res[x]) for x in names], "va": [vtag(v) for v in res.get("*", ())],
+            "kw": ks, "kwv": [vtag(kw[k]) for k in ks]}
 
 
 def err(e):
-    return {"k": type(e).__name__, "b": [], "va": [], "kw": []}
+    return {"k": type(e).__name__, "b": [], "va": [], "kw": [], "kwv": []}
 
 
 # ------------------------------------------------------------------------------ execution
@@ -189,9 +258,9 @@ class CPy:
     def __init__(self):
         self.code = {}
 
-    def define(self, sig):
+    def define(self, sig, val=None):
         self.g = {}
-        exec(sig_source(sig), self.g)
+        exec(sig_source(sig, val), self.g)
 
     def call(self, sig, src):
         c = self.code.get(src)
@@ -210,7 +279,7 @@ class Pys:
         self.nodes = {}
         self.n = 0
 
-    async def define(self, sig):
+    async def define(self, sig, val=None):
         from custom_components.pyscript.eval import AstEval
         from custom_components.pyscript.function import Function
         from custom_components.pyscript.global_ctx import GlobalContext, GlobalContextMgr
@@ -219,7 +288,7 @@ class Pys:
         gc = GlobalContext(name, global_sym_table={}, manager=GlobalContextMgr)
         self.a = AstEval(name, gc)
         Function.install_ast_funcs(self.a)
-        self.a.parse(sig_source(sig))
+        self.a.parse(sig_source(sig, val))
         await self.a.eval()
 
     async def call(self, sig, src):
@@ -258,7 +327,9 @@ class Tables:
         self.shapes, self.obs = [], []
         self._s, self._o = {}, {}
 
-    def shape(self, src, shape):
+    def shape(self, src, shape, key=None):
+        """key: an identity of the shape that does not depend on the values it is written with"""
+        src = src if key is None else key
         k = self._s.get(src)
         if k is None:
             self.shapes.append(shape)
@@ -266,7 +337,7 @@ class Tables:
         return k
 
     def outcome(self, o):
-        key = (o["k"], tuple(o["b"]), tuple(o["va"]), tuple(o["kw"]))
+        key = (o["k"], tuple(o["b"]), tuple(o["va"]), tuple(o["kw"]), tuple(o.get("kwv", ())))
         k = self._o.get(key)
         if k is None:
             self.obs.append(o)
@@ -277,13 +348,14 @@ class Tables:
 _REAL = {}
 
 
-def realised(C, ci, r, naming="A"):
-    v = _REAL.get((naming, ci, r))
+def realised(C, ci, r, naming="A", vkey=None, val=None):
+    """vkey: number of the valuation val the call is written with (None: the identity)"""
+    v = _REAL.get((naming, ci, r, vkey))
     if v is None:
         shape = realise(C[ci], r)
-        src = shape_source(shape)
+        src = shape_source(shape, val)
         nargs = sum(it["n"] for it in shape["pos"]) + sum(len(it["names"]) for it in shape["kws"])
-        v = _REAL[(naming, ci, r)] = (shape, src, compile(src, "<call>", "eval"), nargs)
+        v = _REAL[(naming, ci, r, vkey)] = (shape, src, compile(src, "<call>", "eval"), nargs, (ci, r))
     return v
 
 
@@ -319,25 +391,33 @@ def run_family(job, reserved):
        py_mod/py_rem: pyscript executes the calls with (si * 7919 + ci + r) % py_mod == py_rem (py_mod 0: none);
        naming: "A" | "B" (parameter names, see NAMINGS); cpy_mod: CPython executes only the pyscript sample (0: all);
        shapes_slice: [k, of] - additionally the universal signature f(*va, **kw) x every written shape j with
-       j % of == k (pyscript: those with j % shapes_py_mod == 0)."""
+       j % of == k (pyscript: those with j % shapes_py_mod == 0);
+       valued: seed - signature si and its calls are written with valuation(naming, si, seed) (absent: the identity);
+       uval: [key, seed] - the valuation of the universal group."""
     naming = job.get("naming", "A")
     S = sigs(naming)
     C = flat_calls(naming)
     T = Tables()
     groups = []
     stats = {"pairs": 0, "cpy_calls": 0, "pys_calls": 0, "nontrivial": 0, "ok": 0, "typeerror": 0, "locus": {},
-             "pys_same": 0, "pys_differ": 0, "pys_nontrivial": 0, "corrupt": 0}
+             "pys_same": 0, "pys_differ": 0, "pys_nontrivial": 0, "corrupt": 0, "corrupt_value": 0,
+             "valued_groups": 0, "falsy_default_bound": 0, "falsy_argument_bound": 0}
     todo_pys = []
-    terr = T.outcome({"k": "TypeError", "b": [], "va": [], "kw": []})
+    terr = T.outcome(err(TypeError()))
+    falsy = set(FALSY)
     for si in job["sigs"]:
         sig = S[si]
+        vkey, val = None, {}
+        if job.get("valued") is not None:
+            vkey = si % NVAL
+            val = valuation(naming, vkey, job["valued"])
         g = {}
-        exec(sig_source(sig), g)
+        exec(sig_source(sig, val), g)
         nparams = len(sig["po"]) + len(sig["pk"]) + len(sig["ko"]) + int(sig["va"]) + int(sig["kw"])
         calls = []
         nok = 0
         for ci, r in group_calls(job, si, "cpython"):
-            shape, src, code, nargs = realised(C, ci, r, naming)
+            shape, src, code, nargs, skey = realised(C, ci, r, naming, vkey, val)
             try:
                 o = T.outcome(observe(sig, eval(code, g)))
                 nok += 1
@@ -347,51 +427,70 @@ def run_family(job, reserved):
                 o = T.outcome(err(e))
             if nparams and nargs:
                 stats["nontrivial"] += 1
-            calls.append([T.shape(src, shape), o])
+            calls.append([T.shape(src, shape, skey), o])
         stats["pairs"] += len(C)
         stats["cpy_calls"] += len(calls)
         stats["ok"] += nok
         stats["typeerror"] += len(calls) - nok
-        groups.append({"id": "c.%d" % si, "who": "cpython", "sig": sig, "res": [], "calls": calls})
+        stats["valued_groups"] += bool(val)
+        groups.append({"id": "c.%d" % si, "who": "cpython", "sig": sig, "res": [], "val": val_pairs(val), "calls": calls})
         pc = list(group_calls(job, si, "pyscript"))
         if pc:
-            todo_pys.append(({"id": "p.%d" % si, "who": "pyscript", "sig": sig, "res": reserved, "calls": []},
-                             [realised(C, ci, r, naming) for ci, r in pc], g))
+            todo_pys.append(({"id": "p.%d" % si, "who": "pyscript", "sig": sig, "res": reserved, "val": val_pairs(val), "calls": []},
+                             [realised(C, ci, r, naming, vkey, val) for ci, r in pc], g, val))
     if job.get("shapes_slice"):
         usig = UNIVERSAL
+        val = valuation(naming, *job["uval"]) if job.get("uval") else {}
         g = {}
         exec(sig_source(usig), g)
         SH = all_shapes(naming)
         calls = []
         for j in universal_calls(job, "cpython"):
-            src = shape_source(SH[j])
+            src = shape_source(SH[j], val)
             try:
                 o = T.outcome(observe(usig, eval(src, g)))
             except Exception as e:  # noqa: BLE001
                 o = T.outcome(err(e))
-            calls.append([T.shape(src, SH[j]), o])
+            calls.append([T.shape(src, SH[j], ("u", j)), o])
         stats["cpy_calls"] += len(calls)
-        groups.append({"id": "c.u", "who": "cpython", "sig": usig, "res": [], "calls": calls})
+        stats["valued_groups"] += bool(val)
+        groups.append({"id": "c.u", "who": "cpython", "sig": usig, "res": [], "val": val_pairs(val), "calls": calls})
         pj = list(universal_calls(job, "pyscript"))
         if pj:
-            todo_pys.append(({"id": "p.u", "who": "pyscript", "sig": usig, "res": reserved, "calls": []},
-                             [(SH[j], shape_source(SH[j]), None,
-                               sum(it["n"] for it in SH[j]["pos"]) + sum(len(it["names"]) for it in SH[j]["kws"])) for j in pj], g))
+            todo_pys.append(({"id": "p.u", "who": "pyscript", "sig": usig, "res": reserved, "val": val_pairs(val), "calls": []},
+                             [(SH[j], shape_source(SH[j], val), None,
+                               sum(it["n"] for it in SH[j]["pos"]) + sum(len(it["names"]) for it in SH[j]["kws"]), ("u", j)) for j in pj],
+                             g, val))
 
     async def pys_part(hass):
         pys = Pys()
-        for gp, items, g in todo_pys:
+        for gp, items, g, val in todo_pys:
             sig = gp["sig"]
-            await pys.define(sig)
+            await pys.define(sig, val)
             nparams = len(sig["po"]) + len(sig["pk"]) + len(sig["ko"]) + int(sig["va"]) + int(sig["kw"])
             bad = []
-            for shape, src, code, nargs in items:
+            for shape, src, code, nargs, skey in items:
                 o = await pys.call(sig, src)
                 try:
                     oc = observe(sig, eval(code if code is not None else src, g))
                 except Exception as e:  # noqa: BLE001
                     oc = err(e)
                 stats["pys_same" if o == oc else "pys_differ"] += 1
+                if o == oc and o["k"] == "ok":
+                    # census: a parameter received a falsy value from its default / from an argument
+                    fd = [i for i, t in enumerate(o["b"]) if t in falsy and val.get("d:" + AllParams(sig)[i]) == t]
+                    stats["falsy_default_bound"] += bool(fd)
+                    stats["falsy_argument_bound"] += any(t in falsy for t in o["b"] + o["va"] + o["kwv"]) and not fd
+                    if fd and stats["corrupt_value"] < job.get("corrupt", 0):
+                        # self-test of the value dimension: what a recording looks like when a falsy default is taken
+                        # for "no default" (TypeError), replaced by None / by a truthy stand-in
+                        i = fd[0]
+                        for o2 in ({"k": "TypeError", "b": [], "va": [], "kw": [], "kwv": []},
+                                   dict(copy.deepcopy(o), b=o["b"][:i] + ["NoneType:None" if o["b"][i] != "NoneType:None" else "int:0"] + o["b"][i + 1:]),
+                                   dict(copy.deepcopy(o), b=o["b"][:i] + ["d:" + AllParams(sig)[i]] + o["b"][i + 1:])):
+                            bad.append([T.shape(src, shape, skey), T.outcome(o2)])
+                            stats["corrupt"] += 1
+                        stats["corrupt_value"] += 1
                 if o == oc and o["k"] == "ok" and o["b"] and stats["corrupt"] < job.get("corrupt", 0) and len(bad) < 3:
                     # self-test: corrupted copies of an accepted outcome; the acceptor must reject each
                     mode = stats["corrupt"] % 3
@@ -399,16 +498,20 @@ def run_family(job, reserved):
                     if mode == 0:
                         o2["b"][0] = "p2" if o2["b"][0] != "p2" else "p1"
                     elif mode == 1:
-                        o2 = {"k": "TypeError", "b": [], "va": [], "kw": []}
+                        o2 = err(TypeError())
+                    elif "zz" not in o2["kw"]:
+                        ks = sorted(o2["kw"] + ["zz"])
+                        o2["kwv"].insert(ks.index("zz"), val.get("k:zz", "k:zz"))
+                        o2["kw"] = ks
                     else:
-                        o2["kw"] = sorted(o2["kw"] + ["zz"]) if "zz" not in o2["kw"] else []
-                    bad.append([T.shape(src, shape), T.outcome(o2)])
+                        o2["kw"], o2["kwv"] = [], []
+                    bad.append([T.shape(src, shape, skey), T.outcome(o2)])
                     stats["corrupt"] += 1
                 if nparams and nargs:
                     stats["pys_nontrivial"] += 1
                 for l in at_locus(sig, shape):
                     stats["locus"][l] = stats["locus"].get(l, 0) + 1
-                gp["calls"].append([T.shape(src, shape), T.outcome(o)])
+                gp["calls"].append([T.shape(src, shape, skey), T.outcome(o)])
             stats["pys_calls"] += len(items)
             groups.append(gp)
             if bad:
@@ -417,6 +520,10 @@ def run_family(job, reserved):
     if todo_pys:
         with_hass(pys_part)
     return {"shapes": T.shapes, "obs": T.obs, "groups": groups}, stats
+
+
+def AllParams(sig):
+    return sig["po"] + sig["pk"] + [k["name"] for k in sig["ko"]]
 
 
 def with_hass(coro_fn):
